@@ -172,9 +172,40 @@ def overlay_wrong_range(s):
     return s
 
 
+def stake_corrupt_reward(ls):
+    i = first(ls, lambda l: l["ev"] == "call" and any(x[2] > 0 for x in l["post"]["sk"]))
+    x = next(x for x in ls[i]["post"]["sk"] if x[2] > 0)
+    x[2] += 1
+    return ls
+
+
+def stake_drop_payout(ls):
+    # a block update that paid an unbonding: the recorded module call (bank transfer from the pool) is removed
+    i = first(ls, lambda l: l["ev"] == "admin" and l.get("rlog"))
+    ls[i]["rlog"] = []
+    return ls
+
+
+def stake_wrong_settled(ls):
+    i = first(ls, lambda l: l["ev"] == "call" and l.get("settled") and l["settled"] != l["post"]["bank"])
+    ls[i]["settled"] = ls[i]["post"]["bank"]
+    return ls
+
+
+def stake_hide_delegation_from_contract(ls):
+    i = first(ls, lambda l: l["ev"] == "call" and any(o["reads"]["sk"] for o in l["obs"]))
+    o = next(o for o in ls[i]["obs"] if o["reads"]["sk"])
+    o["reads"]["sk"] = o["reads"]["sk"][1:]
+    return ls
+
+
 def main():
     os.makedirs(T, exist_ok=True)
     C.build_harness()
+    trace_demo("chain-stake", ["12", "30"], "trace/Trace_Chain.tla", "trace/Trace_Chain_stake.cfg",
+               [("accumulated reward off by one", stake_corrupt_reward), ("payout at a block update not recorded", stake_drop_payout),
+                ("pending unbonding recorded as already paid", stake_wrong_settled),
+                ("delegation hidden from a contract's query", stake_hide_delegation_from_contract)])
     trace_demo("overlay", ["6", "80"], "trace/Trace_Overlay.tla", "trace/Trace_Overlay.cfg",
                [("corrupted range value", overlay_corrupt_value), ("dropped write event", overlay_drop_write),
                 ("commit recorded as discard", overlay_commit_as_discard)])
